@@ -43,6 +43,30 @@ add("C12", "model_checking",
     "and f' = f for every other footprint of every object; traffic scaling likewise.",
     "Driven sets are derived from the statement and the skeleton spec (harness/c12.py:_expect).")
 
+add("C01", "model_checking",
+    "Differential symbolic execution: a live system (skeletons T1-T9) is edited through the real setters, list "
+    "mutators and grouped ModelingUpdate with symbolic old and new values, and after every edit a system is built "
+    "from scratch from the mirrored specification in the same path; z3 decides hour-by-hour equality of every "
+    "calculated attribute of every reachable object, plus equality of previous_/initial_ totals with snapshots.",
+    "History depth <= 2 (edit+inverse, link edit+numeric edit, sampled pairs); no inductive claim beyond that depth.")
+add("C03", "model_checking",
+    "Symbolic execution of UsagePattern/JobBase/compute_nb_avg_hourly_occurrences inside real systems with symbolic "
+    "starts, step and request durations and per-request amounts; z3 decides closed-form conservation sums and the "
+    "placement of every occurrence/data/average cell against an oracle with its own floor/ceil terms.",
+    "Durations bounded so that integer parts stay in 0..3; request_duration > 0.")
+add("C04", "model_checking",
+    "Symbolic execution of ServerBase/Storage update functions with symbolic loads, capacities, rates, fixed counts, "
+    "storage duration and signs of data_stored: z3 decides the sizing inequalities/equalities per hour, that "
+    "rejections happen exactly for the documented reasons, the cumulative-storage formula per time stamp, and — on "
+    "the Float64 reinterpretation of the cumulative-sum DAG — whether a deletion-free model can be rejected.",
+    "Float64 clause: N=3(4), inputs in {0} U [1,8], conversion factors exactly 1.0; DAG order validated bit-for-bit "
+    "against the real code on the fidelity inputs.", technique=TECH + "; z3 QF_FP on the lowered DAG for the rejection clause")
+add("C07", "model_checking",
+    "Every node of every explanation tree produced by a symbolic run of whole systems is re-evaluated: for + - * / "
+    "nodes z3 decides value(node) = op(value(left), value(right)) cell by cell in base units and pint's "
+    "dimensionality algebra is compared; explain(), labels, and the nature of every leaf are checked on the same "
+    "objects.", "Non-arithmetic operators are only checked structurally.")
+
 NA_REASONS = {}
 
 
